@@ -604,13 +604,14 @@ LEVEL_TEXT = ("Machine-checked Coq theorems over an executable Gallina copy of c
               "iterator (C03_committed_is_readable); commits that land while Delete resolves its offsets keep the "
               "invariant because both captured positions are re-resolved (C03_delete_during_commits_inv, "
               "C03_repechage_finds), and the monitor's invariant clause accepts every model state "
-              "(C03_monitor_invariant_sound). The model is tied to /repo on every run by driving the real "
+              "(C03_monitor_invariant_sound); a restart keeps every committed domain (C03_reopen; the harness really closes and "
+              "reopens the database, with lazily persisting writers, and the loaded index is compared and judged). The model is tied to /repo on every run by driving the real "
               "domain.DB on generated histories and comparing, after every operation, error class, iterator "
               "enumeration with bytes read, raw index pointers, file sizes and writer Start/End/file key inside Coq; "
               "a decidable monitor states the property on the implementation's observations and yields the replay.")
 LEVEL_NOTE = ("Trusted: Coq kernel/vm_compute; hand-written model (tied by correspondence, not translation); harness + "
               "read-only hook export_verif_c03.go; generator. Assumes stamps in [0, 2^63-1], data files < 2^32 bytes, "
-              "fresh database without reopen/GC/descriptor-limit paths, sequential histories; Go map iteration order "
+              "database starting empty, restarts modelled as the identity on the index (GC and descriptor-limit paths not modelled), sequential histories plus commits inside Delete's resolvers; Go map iteration order "
               "in acquireWriter is an oracle argument taken from the implementation's choice. Not modelled: index "
               "persistence (C02), garbage collection (C04), races (C09). All theorems closed under the global context. "
               "Two defects found by this check were repaired by fix: commits (F18 backwards commit accepted on a file "
